@@ -171,14 +171,75 @@ def modelClasses(WallGo: Any) -> dict:
         def getEffectivePotential(self) -> Any:
             return self.effectivePotential
 
+    class SingletPotential(WallGo.EffectivePotential):
+        """two-field Z2 singlet extension in the high-temperature expansion (the
+        repository's simplified test model); transition (0, x) -> (v, 0)"""
+
+        fieldCount = 2
+        effectivePotentialError = 1e-15
+
+        def __init__(self, owner: Any):
+            super().__init__()
+            self.owner = owner
+
+        def _coefficients(self, T: Any) -> tuple:
+            p = self.owner.modelParameters
+            cH = (3 * p["g2"] ** 2 + p["g1"] ** 2 + 4 * p["yt"] ** 2 + 8 * p["lHH"]) / 16 \
+                + p["lHS"] / 24
+            cS = p["lHS"] / 6 + p["lSS"] / 4
+            return p["muHsq"] + cH * T**2, p["muSsq"] + cS * T**2, cH, cS
+
+        def evaluate(self, fields: Any, temperature: Any) -> Any:
+            event = self.owner.ctl.tick()
+            if event == "raise":
+                raise ValueError("injected: effective potential has an imaginary part")
+            f = WallGo.Fields(fields)
+            total = np.array(self.exact2(f.getField(0), f.getField(1), np.asarray(temperature)))
+            if event == "nan":
+                return total * np.nan
+            return total
+
+        def exact2(self, v: Any, x: Any, T: Any) -> Any:
+            p = self.owner.modelParameters
+            muH, muS, _, _ = self._coefficients(T)
+            return (0.5 * muH * v**2 + 0.25 * p["lHH"] * v**4 + 0.5 * muS * x**2
+                    + 0.25 * p["lSS"] * x**4 + 0.25 * p["lHS"] * v**2 * x**2
+                    - 107.75 * np.pi**2 / 90 * T**4)
+
+        def dVdT2(self, v: Any, x: Any, T: Any) -> Any:
+            _, _, cH, cS = self._coefficients(T)
+            return cH * T * v**2 + cS * T * x**2 - 107.75 * np.pi**2 / 90 * 4 * T**3
+
+    class SingletSim(WallGo.GenericModel):
+        kind = "singlet"
+        particleNames = ()
+
+        def __init__(self, ctl: CallbackCtl, params: dict):
+            self.ctl = ctl
+            self.modelParameters: dict = dict(params)
+            self.effectivePotential = SingletPotential(self)
+            self.clearParticles()
+
+        @property
+        def fieldCount(self) -> int:
+            return 2
+
+        def getEffectivePotential(self) -> Any:
+            return self.effectivePotential
+
     _CLASSES["yukawa"] = YukawaSim
     _CLASSES["bag"] = BagSim
+    _CLASSES["singlet"] = SingletSim
     return _CLASSES
 
 
 MODEL_PARAMS = {
     "yukawa": {"sigma": 0.0, "msq": 1.0, "gamma": -1.2, "lam": 0.10, "y": 0.55, "mf": 0.30},
     "bag": {"a": 3.0, "msq": 1.0, "mu": 3.3, "lam": 2.0, "cT": 0.02},
+    # Lagrangian parameters of the repository's singlet benchmark BM1
+    "singlet": {"lHS": 0.9, "lSS": 1.0, "lHH": 0.12909808976138543, "muHsq": -7812.5,
+                "muSsq": -12832.2, "g1": 0.3501031219017684, "g2": 0.6534878048780488,
+                "yt": 0.9945485621566887},
 }
 
 #: benchmark points: phase guesses and derivative scales per model
@@ -187,6 +248,8 @@ POINTS = {
                "good": [5.5, 5.8, 6.5, 7.0, 7.3, 7.5, 7.6, 7.7, 7.9, 8.0, 8.2, 8.3], "bad": [8.6, 4.9]},
     "bag": {"phase1": [0.0], "phase2": [1.2], "Tscale": None, "fscale": [1.0],
             "good": [0.5], "bad": []},
+    "singlet": {"phase1": [0.0, 200.0], "phase2": [246.0, 0.0], "Tscale": 10.0,
+                "fscale": [10.0, 10.0], "good": [95.0, 100.0, 104.0], "bad": [120.0]},
 }
 
 
